@@ -237,18 +237,30 @@ PROPS = {
     "C15": {
         "title": "Acknowledged state of the persistent backends survives restart",
         "harness": "c15",
-        "model": "Model/Mem.v state = the persistent component; Model/Uploader.v ustate = the volatile component dropped by a restart",
-        "rule": "bolt file, multi-bucket fs and single-bucket fs with an on-disk metadata store, each on a real temp directory: 10 (quick) "
+        "model": "Model/Mem.v state = the persistent component, Model/Uploader.v ustate = the volatile component dropped by a restart; Model/Crash.v: PutObject / DeleteObject of the fs backends as sequences of state-changing file-system calls, loadMeta's freshness rule, a kill = a prefix of the sequence (optionally half of a write)",
+        "rule": "(a) bolt file, multi-bucket fs and single-bucket fs with an on-disk metadata store, each on a real temp directory: 10 (quick) "
                 "/ 120 (thorough) seeded C02-style histories (plus puts of random binary bodies with metadata, keys with spaces and "
-                "UTF-8) interleaved with 1..3 clean restarts (close, re-open the same storage, new server). Before and after every "
-                "restart the full probe (bucket list, listings, GET and HEAD of every key with metadata) is compared with the model, "
-                "whose backend state a restart does not change. distinct_nontrivial = distinct (backend, history, restart).",
-        "explanation": "Theorem: in the model every observable of the object API is a function of the persistent state component alone, "
-                       "so a restart (which only resets the volatile uploader) changes no answer. Tie: before/after-restart probes of "
-                       "the real persistent backends vs the model. PARTIAL: the kill -9 clause (acknowledged writes present, in-flight "
-                       "writes atomic) lives in the OS/bbolt/filesystem; the model treats each acknowledged operation as one atomic "
-                       "transition and cannot exhibit torn writes — not checked in the quick tier.",
-        "assumptions": ["clean restart only (close + reopen); crash consistency of bbolt and of the filesystem is trusted, not modelled"],
+                "UTF-8) interleaved with 1..3 in-process restarts; before and after every restart the full probe (bucket list, listings, "
+                "GET and HEAD of every key with metadata) is compared with the model. (b) the real server command built from "
+                "/repo/cmd/gofakes3 (-backend bolt | fs with -fs.meta | directfs with -directfs.meta), requests over TCP: 3 (25 thorough) "
+                "histories per backend in which every restart is SIGKILL + a new process, and 3 (60) kill rounds per backend: acknowledged "
+                "puts (0..64 KiB, metadata) / overwrites / deletes, then SIGKILL with one more write in flight (half of its body sent, or "
+                "0..3 ms after issue); afterwards the probe must equal the model state with or without that write. (c) crash points on "
+                "both fs backends: for put new key / overwrite longer, shorter, same length, dropping metadata / delete (nested, top level) "
+                "/ copy over existing, to a new key / multi-delete / create-bucket, a wrapping file system kills the request immediately "
+                "before each state-changing call and half way through each file write; the calls logged must equal the model's sequence "
+                "and a new backend on what is left must answer exactly as the Coq crash model predicts for that call index. "
+                "distinct_nontrivial = distinct (backend, history, restart) + distinct crash points.",
+        "explanation": "Theorems: every observable of the object API is a function of the persistent state alone (clean restart); for the fs "
+                       "backends' call sequences: an uninterrupted PutObject is the abstract put, at EVERY crash point every other key answers "
+                       "as before, DeleteObject is crash-atomic, every crash state of PutObject is one of a listed set, the invariant is kept "
+                       "and the next PUT repairs the key — and PutObject is NOT crash-atomic (C15_fs_put_not_crash_atomic_refuted = known "
+                       "finding D31). Tie: in-process restarts, the real binary under SIGKILL, and per-call-index prediction of the post-crash "
+                       "state. PARTIAL: that the page cache outlives the process and that one write/unlink is atomic w.r.t. SIGKILL is the "
+                       "OS's; bbolt's transaction atomicity is trusted (one model step) and only exercised by the random kills.",
+        "trusted_extra": ["harness/crashfs.go (file-system wrapper that stops a request at a chosen call) and harness/extserver.go (TCP forwarder to the server process built from /repo/cmd/gofakes3, SIGKILL restarts)"],
+        "assumptions": ["a kill falls between two file-system calls or inside a write (harness/crashfs.go); data handed to the kernel survives the process",
+                        "bbolt Update transactions are atomic and durable (trusted, not modelled)"],
         "timeout": {"quick": 900, "thorough": 3000},
     },
     "C01": {
@@ -291,23 +303,29 @@ PROPS = {
     "C07": {
         "title": "Concurrent clients see linearizable, race-free behaviour",
         "harness": "c07",
-        "model": "Model/Conc.v: every request = Pre (no lock: body read) / Commit (under the backend lock: whole effect + capture of the response) / Post (no lock: streaming) sections over Model/Handlers.v step; schedules = arbitrary interleavings",
+        "model": "Model/Conc.v: every request = Pre (no lock: body read) / Commit (under the backend lock: whole effect + capture of the response) / Post (no lock: streaming) sections over Model/Handlers.v step; schedules = arbitrary interleavings; Model/Uploader.v for the multipart rounds",
         "rule": "per backend: (a) forced interleavings through gated I/O — a PUT whose body reader blocks (slow uploader) while a GET of the "
                 "same key, a PUT of another key and a listing issued by other clients must complete and see the old object; a GET whose "
-                "ResponseWriter blocks (slow reader) overlapped by an overwrite and by a delete of the key must deliver in full the 50-70 KB "
-                "object it captured; (b) rounds of 2, 4, 6 and 16 simultaneous requests (put with unique bodies, get, head, delete, copy "
-                "over 1..4 keys; memory backend also versioned) — 25 rounds x 2 repetitions per width in the quick tier, 60 x 12 in the "
-                "thorough tier — each accepted iff some sequential order of its requests reproduces every observed response (status, "
-                "body, ETag, Content-Length, version id) on the model; sequential probes between rounds. Watchdogs report hangs. "
+                "ResponseWriter blocks (slow reader) overlapped by an overwrite and by a delete must deliver in full the 50-70 KB object it "
+                "captured; a CompleteMultipartUpload whose backend write is held open while a part upload, a second complete, an abort and "
+                "a part listing of the same upload arrive (both must finish; a sequential explanation must exist); (b) rounds of 2, 4, 6 and "
+                "16 simultaneous requests (put with unique bodies, get, head, delete, copy over 1..4 keys; memory backend also versioned) and "
+                "rounds of 2..5 simultaneous multipart requests (part upload / complete / abort / list-parts / get over 2..3 pending uploads) "
+                "— 25 rounds x 2 repetitions per shape in the quick tier, 60 x 12 in the thorough tier — each accepted iff some sequential "
+                "order of its requests reproduces every observed response on the model; sequential probes between rounds; (c) 16 clients x "
+                "40 simultaneous versioned PUTs: ids pairwise distinct, each id serves exactly its upload; (d) the workload (reduced) in a "
+                "binary built with -race: a report with a conflicting access in /repo code is a violation. Watchdogs report hangs. "
                 "distinct_nontrivial = distinct (backend, versioned, round).",
         "explanation": "Theorems: for every number of clients, every program and EVERY schedule of the section model, the shared state and "
                        "each client's responses equal those of the sequential execution of the operations in Commit order, which respects "
                        "program order; Post delivers exactly what Commit captured (no torn reads). Tie: forced interleavings and "
-                       "concurrent rounds on the real handlers, checked for linearizability against the extracted sequential model. "
-                       "PARTIAL: data races inside a section, the Go memory model and sync.RWMutex atomicity are assumed, not modelled; "
-                       "the race detector is not part of the quick tier.",
-        "assumptions": ["requests of one round are treated as mutually concurrent (no finer real-time order is recorded), which can only accept more histories"],
-        "timeout": {"quick": 900, "thorough": 3000},
+                       "concurrent rounds on the real handlers, checked for linearizability against the extracted sequential model; the race "
+                       "detector for unsynchronised accesses. PARTIAL: sync.RWMutex atomicity and the Go memory model are assumed; the race "
+                       "detector and the rounds only see the interleavings that occur in a run.",
+        "trusted_extra": ["Go race detector (go build -race) on the reduced C07 workload; the linearizability search loop in ocaml/driver.ml"],
+        "assumptions": ["requests of one round are treated as mutually concurrent (no finer real-time order is recorded), which can only accept more histories",
+                        "Go race detector: absence of a report is not a proof of race freedom"],
+        "timeout": {"quick": 1200, "thorough": 3600},
     },
 }
 
